@@ -29,7 +29,7 @@ ASSUMPTIONS = [
 ]
 SHARDS = {"quick": 8, "thorough": 16}
 FLOOR = 0.4
-REQUIRED_CLASSES = {t: ["container", "rich-label", "nested-container", "depth>=3", "custom-labels"] for t in ("quick", "thorough")}
+REQUIRED_CLASSES = {t: ["container", "rich-label", "nested-container", "depth>=3", "custom-labels", "edited-then-exported-again"] for t in ("quick", "thorough")}
 F = np.array([1e4, 10.0, 1e-2])
 
 
@@ -54,6 +54,7 @@ def _opts(draw):
         "right": draw(st.sampled_from(["", "", "CE+RE"])),
         "node_height": draw(st.sampled_from([1.5, 1.0, 2.25])),
         "node_width": draw(st.sampled_from([3.0, 2.0, 4.5])),
+        "edit": draw(st.one_of(st.none(), st.tuples(st.sampled_from(["swap", "replace", "sub"]), st.integers(0, 50), st.integers(0, 50), st.integers(0, 50)).map(list))),
     }
 
 
@@ -78,7 +79,8 @@ def shape_cases(ctx):
                 idx += 1
                 o = idx
                 yield {"ast": G.shape_to_ast(shape, leaves), "opts": {"running": bool(o & 1), "hide": o % 7 == 0, "custom": o % 5 == 0, "left": "WE" if o % 3 == 0 else "",
-                                                                   "right": "CE" if o % 4 == 0 else "", "node_height": 1.5, "node_width": 3.0}}
+                                                                   "right": "CE" if o % 4 == 0 else "", "node_height": 1.5, "node_width": 3.0,
+                                                                   "edit": [["swap", "replace", "sub"][o % 3], o, o // 3, o // 7] if o % 2 else None}}
 
 
 def _balanced(text, pairs=("()", "[]", "{}")):
@@ -214,6 +216,38 @@ def body(ctx, case):
             okb &= depth["["] >= 0 and depth["("] >= 0
         items = [obj for tok, obj in stack if tok not in "[]()"]
         ctx.check(okb and depth == {"[": 0, "(": 0} and len(items) == len(drawn) and all(any(o is d for d in drawn) for o in items), "stack-wellformed", case, f"to_stack: {[t for t, _ in stack]}")
+    # the same Circuit object after an in-place edit that keeps the description code (an element replaced by a copy,
+    # two children swapped): every export must still work and name the *current* elements
+    if opts.get("edit") and not case.get("_second_round"):
+        from checks.c16_identifiers import apply_edit
+
+        done = False
+        try:
+            done = apply_edit(circuit, opts["edit"])
+        except Exception as e:  # noqa: BLE001
+            ctx.crash("edit", case, e)
+        if done:
+            try:
+                with np.errstate(all="ignore"):
+                    circuit.get_impedances(F)
+            except (ImpedanceError, NotImplementedError):
+                done = False  # the edit produced a circuit that cannot be simulated (e.g. a Tlm configuration that is refused)
+        if done:
+            labels.add("edited-then-exported-again")
+            drawn2 = circuit.get_elements(recursive=True)
+            per2 = circuit.generate_element_identifiers(running=False)
+            for what, fn in (("to_sympy", lambda: circuit.to_sympy()), ("to_latex", lambda: circuit.to_latex()), ("to_circuitikz", lambda: circuit.to_circuitikz()), ("to_drawing", lambda: circuit.to_drawing())):
+                out = attempt(what + " after an in-place edit", fn)
+                if what == "to_circuitikz" and out is not None:
+                    comps = sorted(c[1] for c in re.findall(r"to\[(\w+)=\$(.*?)\$\]", out))
+                    want = sorted(f"{e.get_symbol()}_{{\\rm {e.get_label() or per2[e]}}}" for e in drawn2)
+                    ctx.check(comps == want, "circuitikz-labels-are-names", case, f"after an in-place edit: labels {comps} ; the circuit names its elements {want}")
+            try:
+                import matplotlib.pyplot as plt
+
+                plt.close("all")
+            except Exception:  # noqa: BLE001
+                pass
     nontrivial = len(els) >= 3 and G.ast_has(ast, "P")
     ctx.record(case, nontrivial, sorted(labels), "fewer than 3 elements or no parallel connection")
 
